@@ -162,6 +162,8 @@ pub enum Fault {
     Delay(u64),
     CrashBefore,
     CrashAfter,
+    /// a GET succeeds as a request but its body stream breaks after this many percent of the bytes
+    BodyBreak(u32),
 }
 
 #[derive(Debug, Clone)]
@@ -183,6 +185,8 @@ pub struct Cfg {
     pub fail_after_pm: u32,
     pub delay_pm: u32,
     pub delay_ms: Vec<u64>,
+    /// per-mille of read requests whose body stream breaks part-way (connection reset mid-body)
+    pub body_break_pm: u32,
     pub fault_budget: u32,
     /// nodes whose store requests may receive faults (empty = all)
     pub fault_nodes: Vec<u32>,
@@ -215,6 +219,7 @@ impl Default for Cfg {
             fail_after_pm: 0,
             delay_pm: 0,
             delay_ms: vec![1, 100, 5_000, 90_000],
+            body_break_pm: 0,
             fault_budget: 0,
             fault_nodes: vec![],
             post_gates: false,
@@ -724,12 +729,13 @@ pub fn on_park() {
                     fault = f;
                 }
             } else if st.cfg.enabled && eligible_node && st.cfg.fault_budget > 0 {
-                let tot = st.cfg.fail_before_pm + st.cfg.fail_after_pm + st.cfg.delay_pm;
+                let tot = st.cfg.fail_before_pm + st.cfg.fail_after_pm + st.cfg.delay_pm + st.cfg.body_break_pm;
                 if tot > 0 {
                     let d = st.stape.draw(1000);
                     let a = 1000 - st.cfg.fail_before_pm.min(1000);
                     let b = a.saturating_sub(st.cfg.fail_after_pm);
                     let c = b.saturating_sub(st.cfg.delay_pm);
+                    let e = c.saturating_sub(st.cfg.body_break_pm);
                     if d >= a {
                         fault = Fault::FailBefore;
                     } else if d >= b {
@@ -737,6 +743,8 @@ pub fn on_park() {
                     } else if d >= c {
                         let ms = st.cfg.delay_ms[st.stape.draw(st.cfg.delay_ms.len() as u32) as usize];
                         fault = Fault::Delay(ms);
+                    } else if d >= e && p.site.starts_with("GET ") {
+                        fault = Fault::BodyBreak([0u32, 10, 50, 90][st.stape.draw(4) as usize]);
                     }
                     if fault != Fault::None {
                         st.cfg.fault_budget -= 1;
@@ -751,6 +759,7 @@ pub fn on_park() {
             Fault::Delay(_) => *st.faults.entry("store_delay".into()).or_insert(0) += 1,
             Fault::CrashBefore => *st.faults.entry("crash_before_request".into()).or_insert(0) += 1,
             Fault::CrashAfter => *st.faults.entry("crash_after_request".into()).or_insert(0) += 1,
+            Fault::BodyBreak(_) => *st.faults.entry("store_get_body_breaks".into()).or_insert(0) += 1,
         }
         st.grants += 1;
         if let Some(l) = st.last_grant_node {
